@@ -717,6 +717,43 @@ func c18Run(w *core.W) {
 			}
 		}
 	}
+	// generator contexts forked from frames of different widths one after the other in one statement (the second
+	// fork reuses the memory of the first): the iterator expression pushes operands and then reads the first, a
+	// middle and the last variable of the copied frame
+	w.Family("forks-from-frames-of-different-widths")
+	{
+		mk := func(name string, k int) string {
+			var b strings.Builder
+			fmt.Fprintf(&b, "%s = (a) -> {\n", name)
+			prev := "a"
+			names := []string{"a"}
+			for i := 0; i < k; i++ {
+				v := letters(i)
+				fmt.Fprintf(&b, "  %s = %s + \"%d\"\n", v, prev, i%10)
+				prev = v
+				names = append(names, v)
+			}
+			mid := names[len(names)/2]
+			fmt.Fprintf(&b, "  r = []\n  for i <- elems([\"lit\", a, %s, %s]) r = r + [#i]\n  for i, j <- elems([a, %s]), fromto(#a, #%s + 2) r = r + [#i, j]\n  r\n}", mid, prev, prev, mid)
+			return b.String()
+		}
+		widths := []int{0, 1, 2, 5, 40, 130}
+		for _, k1 := range widths {
+			for _, k2 := range widths {
+				for _, between := range []string{"", "t = 0\n  for q <- fromto(0, 3) t = t + q\n  "} {
+					prog := []string{mk("fone", k1), mk("ftwo", k2),
+						"both = () -> {\n  " + between + "x = fone(\"p\")\n  y = ftwo(\"qq\")\n  [x, y, fone(\"rrr\")]\n}", "both()", "[ftwo(\"s\"), fone(\"tt\")]"}
+					if !w.Mine(keyOf(prog)) {
+						continue
+					}
+					w.NonTrivial()
+					if sig, detail := sessExec(sess.Options{})(payloadOf(prog)); sig != "" {
+						w.Fail(payloadOf(prog), "program:"+sig, detail)
+					}
+				}
+			}
+		}
+	}
 	w.Family("deep-recursion")
 	for _, dep := range []int{1000, 100000} {
 		b, _ := json.Marshal(map[string]any{"path": []int{-dep}})
